@@ -194,5 +194,27 @@ def register(g):
                  f'def preEpochRejected : Bool := {"true" if pre else "false"}', 'end Rj.Generated']
         write('PanicSites.lean', '\n'.join(lines) + '\n')
 
+    def walker():
+        import re as _re
+        pw = strip_comments(read('src/parallel_walk_dir.rs'))
+        wm = fn_body(pw, 'worker_main') or ''
+        i_send = wm.find('result_sender.send(Ok(Entry')
+        i_inc = wm.find('num_unfinished_jobs.fetch_add(1')
+        i_enq = wm.find('job_sender.send(Job::Dir(x))')
+        i_dec = wm.find('num_unfinished_jobs.fetch_sub(1')
+        m_skip = _re.search(r'if\s+f\.skip\s*\{\s*continue;', wm)
+        m_type = _re.search(r'let\s+file_type\s*=\s*match\s+entry\.file_type\(\)', wm)
+        m_rec = _re.search(r'let\s+child_dir_to_recurse\s*=\s*if\s+file_type\.is_dir\(\)', wm)
+        m_last = _re.search(r'if\s+prev_count\s*==\s*1\s*\{.*?for\s+_\s+in\s+0\.\.num_threads\s*\{\s*job_sender\.send\(Job::Done\)', wm, _re.S)
+        f = dict(entrySentBeforeJobQueued=0 <= i_send < i_enq, incBeforeEnqueue=0 <= i_inc < i_enq,
+                 recursesOnUnfollowedType=m_type is not None and m_rec is not None and 'std::fs::metadata' not in wm and '.metadata()' not in wm,
+                 skipBeforeSend=m_skip is not None and m_skip.start() < i_send, lastFinisherBroadcasts=m_last is not None,
+                 decAfterJob=i_dec > i_enq > 0)
+        for k, v in f.items():
+            if not v: status['walker:' + k] = 'not recognised / differs from the reference protocol'
+        b = lambda x: 'true' if x else 'false'
+        write('Walker.lean', 'import RjModel.Model.Walker\nnamespace Rj.Generated\ndef walkFeatures : WalkFeatures := ⟨' +
+              ', '.join(b(f[k]) for k in ('entrySentBeforeJobQueued', 'incBeforeEnqueue', 'recursesOnUnfollowedType', 'skipBeforeSend', 'lastFinisherBroadcasts', 'decAfterJob')) + '⟩\nend Rj.Generated\n')
+
     g_ = g
-    return {'defaults': defaults, 'skeletons': skeletons, 'sites': sites, 'shutdown': shutdown, 'panic_sites': panic_sites}
+    return {'defaults': defaults, 'skeletons': skeletons, 'sites': sites, 'shutdown': shutdown, 'panic_sites': panic_sites, 'walker': walker}
